@@ -31,6 +31,7 @@ var (
 	flagVerbose = flag.Bool("v", false, "print every obligation")
 	flagNoCtl   = flag.Bool("nocontrols", false, "skip the control corpus")
 	flagCtl     = flag.String("control", "", "run one control of the corpus and print the new violations (debugging)")
+	flagDry     = flag.Bool("dry", false, "do not write evidence or replay files (used when checking scratch variants)")
 	flagMan     = flag.Bool("manifest", false, "print MANIFEST.json for the claimed properties")
 )
 
@@ -261,9 +262,11 @@ func runProp(id, tier string) int {
 				continue
 			}
 			seenViolation[o.Key()] = true
-			os.MkdirAll(replayDir, 0o755)
 			rp := filepath.Join(replayDir, fmt.Sprintf("%s-%s.json", id, sanitize(o.Key())))
-			ob.WriteJSON(rp, map[string]interface{}{"property": id, "rule": o.Rule, "construct": o.Construct, "config": o.Config, "pos": o.Pos, "detail": o.Detail, "path": o.Path})
+			if !*flagDry {
+				os.MkdirAll(replayDir, 0o755)
+			}
+			writeReplay(rp, map[string]interface{}{"property": id, "rule": o.Rule, "construct": o.Construct, "config": o.Config, "pos": o.Pos, "detail": o.Detail, "path": o.Path})
 			fmt.Printf("FAIL %s %s at %s [%s]: %s\n", o.Rule, o.Construct, o.Pos, o.Config, o.Detail)
 			for _, s := range o.Path {
 				fmt.Printf("      %s\n", s)
@@ -308,9 +311,11 @@ func runProp(id, tier string) int {
 		WallS:       time.Since(start).Seconds(),
 		Violations:  nViol,
 	}
-	os.MkdirAll(filepath.Join(*flagVerif, "evidence"), 0o755)
-	if err := ob.WriteJSON(filepath.Join(*flagVerif, "evidence", id+".json"), ev); err != nil {
-		model.Fatal("writing evidence: %v", err)
+	if !*flagDry {
+		os.MkdirAll(filepath.Join(*flagVerif, "evidence"), 0o755)
+		if err := ob.WriteJSON(filepath.Join(*flagVerif, "evidence", id+".json"), ev); err != nil {
+			model.Fatal("writing evidence: %v", err)
+		}
 	}
 	for _, l := range lines {
 		fmt.Println(l)
@@ -327,6 +332,13 @@ func runProp(id, tier string) int {
 		return 1
 	}
 	return 0
+}
+
+func writeReplay(path string, v interface{}) {
+	if *flagDry {
+		return
+	}
+	ob.WriteJSON(path, v)
 }
 
 func sanitize(s string) string {
